@@ -19,6 +19,7 @@ behind the (suspected, DESIGN 5) iteration-count defect.
 from __future__ import annotations
 
 import time
+from fractions import Fraction
 
 import jax
 import jax.numpy as jnp
@@ -92,6 +93,77 @@ def cases(tier, seed):
         dict(name="connect-4x4x3", kind="connect", shape=(4, 4, 3)),
         dict(name="module-connect-3x3x3-bg1", kind="mod_connect", shape=(3, 3, 3), bg=1),
     ]
+
+
+# ------------------------------------------------------------------------------------------------ Bool-level view of "count != 0"
+def _numval(t):
+    if z3.is_int_value(t):
+        return Fraction(t.as_long())
+    if z3.is_rational_value(t):
+        return Fraction(t.numerator_as_long(), t.denominator_as_long())
+    return None
+
+
+def _indicator_sum(t, acc):
+    """t == const + sum_i coef_i * If(b_i, 1, 0) with const >= 0 and every coef_i > 0: append the b_i to ``acc`` and return
+    const, else return None (no rewrite).  Pure pattern match on the z3 term the interpreter built for a dilation count."""
+    v = _numval(t)
+    if v is not None:
+        return v if v >= 0 else None
+    k = t.decl().kind()
+    if k == z3.Z3_OP_ITE:
+        cnd, a, b = t.children()
+        va, vb = _numval(a), _numval(b)
+        if va is not None and vb is not None and va > 0 and vb == 0:
+            acc.append(cnd)
+            return Fraction(0)
+        return None
+    if k == z3.Z3_OP_ADD:
+        tot = Fraction(0)
+        for ch in t.children():
+            r = _indicator_sum(ch, acc)
+            if r is None:
+                return None
+            tot += r
+        return tot
+    if k == z3.Z3_OP_MUL and len(t.children()) == 2:
+        a, b = t.children()
+        if _numval(b) is not None:
+            a, b = b, a
+        va = _numval(a)
+        if va is not None and va > 0:
+            sub = []
+            r = _indicator_sum(b, sub)
+            if r is None:
+                return None
+            acc.extend(sub)
+            return r * va
+        return None
+    if k == z3.Z3_OP_TO_REAL:
+        return _indicator_sum(t.children()[0], acc)
+    return None
+
+
+class BoolInterp(jx.Interp):
+    """jx.Interp whose float/int -> bool conversion recognises a non-negative combination of 0/1 indicators (the
+    neighbour count a binary dilation produces) and returns the equivalent disjunction instead of ``count != 0``.  The
+    rewrite is an equivalence (all coefficients positive, constant non-negative); anything else is left untouched."""
+
+    def p_convert_element_type(self, e, ins):
+        out = jx.Interp.p_convert_element_type(self, e, ins)
+        if not np.issubdtype(np.dtype(e.params["new_dtype"]), np.bool_) or np.issubdtype(np.dtype(e.invars[0].aval.dtype), np.bool_):
+            return out
+        src = jx.lift(ins[0])
+        res = np.empty(src.shape, dtype=object)
+        for idx in np.ndindex(*src.shape):
+            v = src[idx]
+            res[idx] = out[idx]
+            if sc.isz(v) and not z3.is_bool(v):
+                acc = []
+                const = _indicator_sum(v, acc)
+                if const is not None:
+                    res[idx] = True if const > 0 else (z3.Or(*acc) if len(acc) > 1 else (acc[0] if acc else False))
+        return res
 
 
 # ------------------------------------------------------------------------------------------------ oracle (independent)
@@ -231,7 +303,7 @@ def _flood_case(c, case, what, fn, seed, invert):
     m = jx.symarr("m", shape, sort="bool")
     c.symvars += N
     t0 = time.time()
-    it = jx.Interp()
+    it = BoolInterp()
     out, tr = jx.call(fn, m, interp=it)
     c.interp_s += time.time() - t0
     rng = np.random.default_rng(c.seed + 23)
@@ -288,7 +360,7 @@ def _feasibility(c, case, what, fn, to_material, make_input, m, replay_design):
     shape = tuple(case["shape"])
     N = int(np.prod(shape))
     t0 = time.time()
-    it = jx.Interp()
+    it = BoolInterp()
     inp = make_input(m)
     out, tr = jx.call(fn, inp, interp=it, dtypes=None)
     c.interp_s += time.time() - t0
@@ -361,7 +433,7 @@ def _module_remove(c, case):
     c.symvars += N
     p = _idx_input(m, bg)
     t0 = time.time()
-    out, tr = jx.call(fn, p, interp=jx.Interp(), dtypes={0: np.int32})
+    out, tr = jx.call(fn, p, interp=BoolInterp(), dtypes={0: np.int32})
     c.interp_s += time.time() - t0
     rng = np.random.default_rng(c.seed + 3)
     d0 = rng.random(shape) < 0.6
